@@ -43,6 +43,8 @@ type recordBuilder struct {
 	headers    *WarcFields
 	recordType RecordType
 	content    diskbuffer.Buffer
+	// contentLengthAdded is set when Build added the Content-Length field itself
+	contentLengthAdded bool
 }
 
 // Write implements the io.Writer interface
@@ -136,6 +138,11 @@ func (rb *recordBuilder) Build() (WarcRecord, *Validation, error) {
 	if err != nil {
 		return wr, validation, err
 	}
+	if wfb, ok := wr.block.(*warcFieldsBlock); ok && rb.contentLengthAdded && wfb.Size() != rb.content.Size() {
+		// WithFixWarcFieldsBlockErrors has rewritten the block: the length the builder adds is the length of the
+		// block that gets serialized
+		wr.headers.SetInt64(ContentLength, wfb.Size())
+	}
 
 	err = wr.ValidateDigest(validation)
 
@@ -146,6 +153,7 @@ func (rb *recordBuilder) validate(wr *warcRecord) (*Validation, error) {
 	size := rb.content.Size()
 	if rb.opts.addMissingContentLength && !wr.WarcHeader().Has(ContentLength) {
 		wr.headers.SetInt64(ContentLength, size)
+		rb.contentLengthAdded = true
 	}
 
 	validation := &Validation{}
